@@ -128,6 +128,19 @@ MUTANTS = [
     ("surface-grid-couple-rotated-with-marker-director", ROD, "            body_flow_torques[:, i] = self.cosserat_rod.director_collection[:, :, i] @ np.sum(", "            body_flow_torques[:, i] = self.grid_point_director_transpose[:, :, i].T @ np.sum(", ["C08"]),
     ("brinkmann-vector-early-return-at-zero-penalty", E3 + "brinkmann_penalise_3d.py", "                \"\"\"Brinkmann penalises a vector field in 3D.\"\"\"\n", "                \"\"\"Brinkmann penalises a vector field in 3D.\"\"\"\n                if penalty_factor <= 0:\n                    return\n", ["C19", "C13"]),
     ("interaction-base-call-swaps-reset-and-threads", IBFI, "            enable_eul_grid_forcing_reset,\n            num_threads,\n            start_time,\n        )", "            num_threads,\n            enable_eul_grid_forcing_reset,\n            start_time,\n        )", ["C07", "C10", "C08", "C15"]),
+    ("zone-damping-z-end-from-y-grid", E3 + "penalise_field_boundary_3d.py", "            z_grid_field_end = z_grid_field[-1, 0, 0]", "            z_grid_field_end = y_grid_field[0, -1, 0]", ["C01", "C13", "C19"]),
+    ("lag-grid-evaluation-drops-position-refresh", IBFI, "        self.forcing_grid.compute_lag_grid_position_field()\n        self.forcing_grid.compute_lag_grid_velocity_field()\n        self.compute_interaction_force_on_lag_grid(",
+     "        self.forcing_grid.compute_lag_grid_velocity_field()\n        self.compute_interaction_force_on_lag_grid(", ["C08", "C09", "C18", "C10"]),
+    ("rectangular-plane-binormal-wrong-norm", "sopht/simulator/immersed_body/rigid_body/derived_rigid_bodies.py", "binormal / np.linalg.norm(binormal)", "binormal / np.linalg.norm(tangent)", ["C09"]),
+    ("zero-grid-shift-replaced-by-default", IB + "VirtualBoundaryForcing.py", "        if eul_grid_coord_shift is None:", "        if not eul_grid_coord_shift:", ["C10", "C06"]),
+    ("inplane-curl-accumulates", E2 + "inplane_field_curl_2d.py", "        curl[0, 0] @= (field_y[0, 1] - field_y[0, -1] - field_x[1, 0] + field_x[-1, 0]) * prefactor", "        curl[0, 0] @= curl[0, 0] + (field_y[0, 1] - field_y[0, -1] - field_x[1, 0] + field_x[-1, 0]) * prefactor", ["C12", "C13", "C05"]),
+    ("advection-2d-y-back-selector-front-neighbour", E2 + "advection_flux_2d.py", "            if velocity_y[0, 0] > -velocity_y[-1, 0]", "            if velocity_y[0, 0] > -velocity_y[1, 0]", ["C14", "C04", "C13"]),
+    ("interpolation-2d-compiled-parallel", IB + "EulerianLagrangianGridCommunicator2D.py", "    @njit(cache=True, fastmath=True)\n    def eulerian_to_lagrangian_grid_interpolation_kernel_2d(", "    @njit(cache=True, fastmath=True, parallel=True)\n    def eulerian_to_lagrangian_grid_interpolation_kernel_2d(", ["C15"]),
+    ("diffusion-flux-2d-skipped-at-zero-prefactor", E2 + "diffusion_flux_2d.py", "                diffusion_flux_kernel_2d(\n                    diffusion_flux=diffusion_flux, field=field, prefactor=prefactor\n                )\n\n                # set boundary",
+     "                if prefactor == 0:\n                    return\n                diffusion_flux_kernel_2d(\n                    diffusion_flux=diffusion_flux, field=field, prefactor=prefactor\n                )\n\n                # set boundary", ["C16", "C13"]),
+    ("eulerian-registration-contiguous-copy", "sopht/utils/io.py", "            self.eulerian_fields[field_name] = field", "            self.eulerian_fields[field_name] = np.ascontiguousarray(field)", ["C17", "C18"]),
+    ("unnamed-grid-counter-stuck", "sopht/utils/io.py", "            self.lagrangian_grid_count += 1", "            self.lagrangian_grid_count = +1", ["C18", "C17"]),
+    ("diffusion-flux-2d-ghost-reset-on-operand", E2 + "diffusion_flux_2d.py", "                set_fixed_val_at_boundaries_2d(field=diffusion_flux, fixed_val=0)", "                set_fixed_val_at_boundaries_2d(field=field, fixed_val=0)", ["C05", "C13"]),
 ]
 
 # behaviour-preserving edits: every listed check must stay silent
